@@ -37,6 +37,8 @@ pub struct Opts {
     pub use_reference: bool,
     /// evaluate the legal-configuration invariants (C01)
     pub check_legality: bool,
+    /// run the model after a write/read cycle through the binary format (C05)
+    pub via_binary_roundtrip: bool,
 }
 
 impl Default for Opts {
@@ -52,6 +54,7 @@ impl Default for Opts {
             alphabet_only_extra: false,
             use_reference: true,
             check_legality: false,
+            via_binary_roundtrip: false,
         }
     }
 }
@@ -524,7 +527,12 @@ impl<'a> Explorer<'a> {
             }
         }
         self.rep.runs += 1;
-        let run = match Run::start(&self.xml, self.opts.watchdog) {
+        let started = if self.opts.via_binary_roundtrip {
+            Run::start_via_binary(&self.xml, self.opts.watchdog)
+        } else {
+            Run::start(&self.xml, self.opts.watchdog)
+        };
+        let run = match started {
             Ok(r) => r,
             Err(e) => {
                 self.violation("reader-rejects-conformant-document", format!("{:?}", e), &[]);
